@@ -109,6 +109,10 @@ pub enum Policy {
     Pct { depth: usize, est_len: usize },
     /// Follow the given thread names; falls back to `Random` when the named thread is not enabled.
     Replay(Vec<String>),
+    /// Follow a specification behaviour: run the named thread until it emits the named event (with
+    /// the given location, if any), then the next entry; fall back to `Random` when the named
+    /// thread cannot run. After the guide is exhausted: PCT.
+    Guide(Vec<(String, String, Option<String>)>),
     /// Follow the given choice indices (into the sorted enabled list), then take index 0. Used by
     /// the exhaustive enumerator.
     Dfs(Vec<usize>),
@@ -151,6 +155,7 @@ struct State {
     diverged: bool,
     change_points: Vec<usize>,
     preemptions: usize,
+    guide_pos: usize,
     last_running: Option<usize>,
     slot_names: HashMap<usize, String>,
     /// Set after a fatal verdict without handler: every hook becomes a no-op so that the stuck
@@ -173,6 +178,7 @@ pub struct RunRecord {
     pub choices: Vec<(usize, usize)>,
     pub steps: usize,
     pub diverged: bool,
+    pub guide_pos: usize,
     pub verdict: Option<Verdict>,
     pub roles: Vec<String>,
 }
@@ -228,6 +234,7 @@ impl Controller {
                 diverged: false,
                 change_points,
                 preemptions: 0,
+                guide_pos: 0,
                 last_running: None,
                 slot_names: HashMap::new(),
                 free_run: false,
@@ -357,6 +364,7 @@ impl Controller {
             choices: st.choices.clone(),
             steps: st.steps,
             diverged: st.diverged,
+            guide_pos: st.guide_pos,
             verdict: st.verdict.clone(),
             roles: st.threads.iter().map(|t| t.role.clone()).collect(),
         }
@@ -470,6 +478,29 @@ impl Controller {
                     enabled[st.rng.random_range(0..enabled.len())]
                 }
             }
+            Policy::Guide(guide) => {
+                // skip entries of threads that have already finished
+                while let Some((name, _, _)) = guide.get(st.guide_pos) &&
+                    st.threads.iter().any(|t| &t.role == name && t.state == TState::Done)
+                {
+                    st.guide_pos += 1;
+                }
+                if let Some((name, _, _)) = guide.get(st.guide_pos) {
+                    if let Some(&t) = enabled.iter().find(|&&t| &st.threads[t].role == name) {
+                        return t;
+                    }
+                    if !st.diverged && std::env::var_os("VH_DEBUG").is_some() {
+                        eprintln!(
+                            "guide diverged at entry {} ({name}): enabled {:?}",
+                            st.guide_pos,
+                            enabled.iter().map(|&t| st.threads[t].role.clone()).collect::<Vec<_>>()
+                        );
+                    }
+                    st.diverged = true;
+                    return enabled[st.rng.random_range(0..enabled.len())];
+                }
+                *enabled.iter().max_by_key(|&&t| st.threads[t].priority).unwrap()
+            }
             Policy::Dfs(prefix) => {
                 let k = st.choices.len();
                 // Under a preemption bound, once exhausted only non-preemptive choices remain.
@@ -548,6 +579,16 @@ impl Hooks for Controller {
             st.epoch += 1;
         }
         let thread = st.threads[tid].role.clone();
+        if let Policy::Guide(guide) = &self.cfg.policy &&
+            let Some((gt, gl, gloc)) = guide.get(st.guide_pos) &&
+            *gt == thread &&
+            gl == label &&
+            gloc.as_ref().is_none_or(|want| {
+                fields.iter().any(|(k, v)| *k == "loc" && matches!(v, Val::S(have) if have == want))
+            })
+        {
+            st.guide_pos += 1;
+        }
         if label == "N_Register" &&
             let Some((_, Val::I(slot))) = fields.iter().find(|(k, _)| *k == "slot")
         {
